@@ -399,6 +399,7 @@ def base_pool(rng):
     from vf.props import c18
     add("fcfg", [c18.agreement_fcfg, c18.nested_fcfg, c18.rand_fcfg, c18.epsilon_fcfg][rng.randrange(4)](rng))   # 11
     add("fa", e3)                                   # 12: epsilon chain 0 -> 1 -> 2 from the start state
+    add("cfg", gcfg.wide_case(rng))                 # 13: forty variables, start symbol nullable through a long way
     return pool
 
 
@@ -573,7 +574,7 @@ def prior_ops(events, ev):
 
 def targeted(rng, n):
     """scripts aimed at each cache in the anchors; pool indices: 0,1 fa  2,3 regex  4,5 cfg  6 pda  7 fst  8 ig
-    9,10 empty-language fa  11 feature grammar  12 epsilon-chain fa; "Rk" = the k-th object returned during the history"""
+    9,10 empty-language fa  11 feature grammar  12 epsilon-chain fa  13 wide grammar; "Rk" = the k-th object returned during the history"""
     out = []
     analyses = ["get_generating_symbols", "get_nullable_symbols", "generate_epsilon", "is_empty", "contains",
                 "to_normal_form", "get_words", "is_finite"]
@@ -624,6 +625,13 @@ def targeted(rng, n):
                     {"target": 10, "op": "minimize", "arg": 0}, {"target": 9, "op": "is_equivalent_to", "others": [10], "arg": 0},
                     {"target": 10, "op": "is_equivalent_to", "others": [0], "arg": 0}, {"target": "R1", "op": "accepts", "arg": 1},
                     {"target": 9, "op": "minimize", "arg": 0}, {"target": "R3", "op": "accepts", "arg": 1}])
+        # a grammar with forty variables: the empty word first, then the analyses and other words
+        out.append([{"target": 13, "op": "contains", "arg": 0}, {"target": 13, "op": "generate_epsilon", "arg": 0},
+                    {"target": 13, "op": "contains", "arg": 0}, {"target": 13, "op": "is_empty", "arg": 0},
+                    {"target": 13, "op": "get_nullable_symbols", "arg": 0}, {"target": 13, "op": "contains", "arg": 1},
+                    {"target": 13, "op": "get_generating_symbols", "arg": 0}, {"target": 13, "op": "contains", "arg": 3},
+                    {"target": 13, "op": "contains", "arg": 0}, {"target": 13, "op": "remove_epsilon", "arg": 0},
+                    {"target": 13, "op": "to_normal_form", "arg": 0}])
         # a regex over the symbols a, b and ab: words that spell the same text asked of one object
         out.append([{"target": 2, "op": "accepts", "arg": a} for a in (3, 11, 3, 12, 13, 11, 1, 12)] +
                    [{"target": 3, "op": "accepts", "arg": a} for a in (11, 3, 13, 12, 3)])
